@@ -44,6 +44,11 @@ def specs_for(progs, sem, tier, rng):
                     continue
                 specs.append(psrun.make_spec(p, s, {"kind": "random", "seed": rng.randrange(1 << 30), "penv": rng.choice([0.3, 0.8])},
                                              name="%s#%sv%d" % (p["name"], mode, k), vdr=mode, files=True, vdr_jitter=300, **kw))
+            # one chunk of a splitting stage removes its own temporary directory before it ends
+            chunk0 = [j["key"] for j in psprops.expected_jobs(s) if j["kind"] == "main" and j["split"] and j["chunk"] == 0]
+            if chunk0 and p["name"] in ("vf_split", "vf_split10", "vf_split_vol"):
+                specs.append(psrun.make_spec(p, s, {"kind": "random", "seed": rng.randrange(1 << 30), "penv": 0.6},
+                                             name="%s#%stidy" % (p["name"], mode), vdr=mode, files=True, remove_own_tmp=chunk0[:1]))
             if p["name"] == "vf_strict_bare":
                 for k in range(2):
                     specs.append(psrun.make_spec(p, s, {"kind": "random", "seed": rng.randrange(1 << 30), "penv": rng.choice([0.3, 0.8])},
